@@ -16,7 +16,7 @@ impl CommonGeneratorConfig for Cfg {
 
 pub fn random_par(rng: &mut Rng) -> String {
     let pool = ["\"if\"", "\"i\"", "/[a-z]+/", "/[0-9]+/", "\"==\"", "\"=\"", "\"\\+\\+\"", "\"\\+\"", "\"<-\"", "\"<\"", "\"-\"", "\"a\" ?= \"b\"",
-                "/[a-z]+/ ?! /[0-9]/", "'fi'", "/i*f/", "/[ab]+/", "\"ab\"", "/(ab)+/", "/a|ab|abc/", "\"=\" ?= \"=\"", "/[0-9]+\\.[0-9]+/", "/\\./"];
+                "/[a-z]+/ ?! /[0-9]/", "'fi'", "/i*f/", "/[ab]+/", "\"ab\"", "/(ab)+/", "/a|ab|abc/", "\"=\" ?= \"=\"", "/[0-9]+\\.[0-9]+/", "/\\./", "'.'", "'.'"];
     let mut s = String::from("%start S\n");
     if rng.chance(1, 3) { s.push_str("%line_comment '//'\n"); }
     if rng.chance(1, 4) { s.push_str("%block_comment '(*' '*)'\n"); }
